@@ -8,7 +8,12 @@ import sys
 import time
 import traceback
 
+import warnings
+
 import numpy as np
+
+warnings.filterwarnings("ignore")
+np.seterr(all="ignore")
 
 from . import repo, lean
 
